@@ -173,7 +173,9 @@ def run_history(story: dict, ops, browser=False, per_call_s=10, on_step=None):
                         eng = eng2
                         obs = ("ok",)
                     elif kind == "save":
-                        slot = json.loads(json.dumps(eng.save_state()))
+                        # the document as the application keeps it: after a JSON round trip, or the very dict save_state()
+                        # returned (an in-memory checkpoint) - later play must not change either
+                        slot = eng.save_state() if len(op) > 1 and op[1] == "raw" else json.loads(json.dumps(eng.save_state()))
                         obs = ("ok",)
                     elif kind == "load":
                         # the SAME document object every time: a load must not make the game share data with it
